@@ -36,7 +36,9 @@ SPEC = Spec(
          "observed and diffed exactly: the NUMBER of checks, reads and forced GCs the monitoring goroutine made in the window (model "
          "Timed.window: ticker instants armedAt + k*check_interval, re-armed by a restart) and MustRefuse afterwards; right after every start / shutdown - "
          "before any time passes - MustRefuse is observed again: no reading was taken, so it must still be the verdict of the most recent "
-         "measurement (Go viol + Lean oracle checkMode, signature C18/shared/refusal-changed-without-a-measurement/<op>); panics of "
+         "measurement (Go viol + Lean oracle checkMode, signature C18/shared/refusal-changed-without-a-measurement/<op>); every Start / Shutdown gets a context that is live, already cancelled or already expired (1/3 dead; corpus cases 4-5 all "
+         "dead; also in the processor (components' Start/Shutdown, case 1 all dead), extension and stress harnesses): the calls ignore it - "
+         "a user that left with a dead context has left (C18_context_irrelevant); panics of "
          "Start/Shutdown are recovered inside the bubble and reported with the case as replay; corpus: start,shutdown,start; two and "
          "three sharers leaving one by one. processor: the four processors created by the real factory from one config share "
          "one limiter; readings scripted via memorylimiter.ReadMemStatsFn, CheckMemLimits called directly, 4-15 consumes against a recording "
